@@ -197,6 +197,9 @@ def run (args : List String) : String :=
   | ["reader-exit-unknown", _, _] | ["reader-exit-unknown", _] => if readerErrSendsGuarded then "connclose=ok reader=ended" else "connclose=ok reader=ended|connclose=ok reader=alive"
   -- a token without a package type becomes a tokenless package that takes the rest of its message; the
   -- message after it is delivered as usual
+  -- the client-side teardown follows a refused teardown packet (`closeTearsDownAfterWriteError`)
+  | ["close-refused", _] =>
+    if closeTearsDownAfterWriteError then "ok_closefail" else "a_closed_channel_delivers_nothing_and_answers_that_it_is_closed"
   | ["unknown-token", _, _] => "next=pkg connclose=ok reader=ended"
   | ["reader-exit", _] => if readerErrSendsGuarded then "connclose=ok reader=ended" else "connclose=ok reader=ended|connclose=ok reader=alive"
   | _ => "bad-op"
